@@ -22,6 +22,26 @@ RULES = """#ruledef
         jmp {a}
         br here
     }
+    jr {addr: u16} => 0x10 @ addr
+    jr {addr} => { rel = addr - $ - 2, assert(rel >= -8 && rel <= 7), 0x21 @ rel`8 }
+    ref {x} => 0xcc @ x`8
+    gr {x} => { assert(x < %(T)d), 0xa1 }
+    gr {x} => { assert(x >= %(T)d), 0xa2a2 }
+    sh {x} => { assert(x < %(U)d), 0xb2b2 }
+    sh {x} => { assert(x >= %(U)d), 0xb1 }
+%(BLOCKS)s
+}
+#ruledef second
+{
+    jmp {addr: u8}, x => 0x9 @ addr
+    ld {x: u16} => 0xd0 @ x
+    st {x: u8} => 0xe0 @ x
+}
+#ruledef third
+{
+    jmp {addr: u4}, x => 0xc @ addr
+    ld {x: u8} => 0xd1 @ x
+    st {x: u16} => 0xe1 @ x
 }
 #subruledef reg
 {
@@ -33,8 +53,27 @@ RULES = """#ruledef
 """
 
 
+def gen_block(rng, k):
+    """an asm-block macro with local labels and instructions that grow/shrink with those labels"""
+    labs = ["m1", "m2"][: rng.randrange(1, 3)]
+    body = []
+    pend = list(labs)
+    for _ in range(rng.randrange(2, 6)):
+        if pend and rng.random() < 0.45:
+            body.append("      %s:" % pend.pop(0))
+        opd = rng.choice(labs + ["{a}"])
+        body.append("        %s %s" % (rng.choice(["ref", "gr", "sh", "gr", "sh", "ldi", "jr"]), opd))
+    for l in pend:
+        body.append("      %s:" % l)
+    return "    blk%d {a} => asm {\n%s\n    }" % (k, "\n".join(body))
+
+
 def gen_program(rng, n=None):
     n = n or rng.randrange(3, 14)
+    nblk = rng.randrange(0, 3)
+    rules = RULES % {"T": rng.choice([2, 3, 4, 5, 6, 8, 12]), "U": rng.choice([2, 3, 4, 5, 6, 8, 12]),
+                     "BLOCKS": "\n".join(gen_block(rng, k) for k in range(nblk))}
+    small = rng.random() < 0.4
     labels = ["l%d" % i for i in range(rng.randrange(1, 5))]
     consts = []
     lines = []
@@ -50,6 +89,8 @@ def gen_program(rng, n=None):
             return "%s + %d" % (rng.choice(labels), rng.randrange(0, 20))
         if r < 0.7:
             return "half(%s)" % rng.choice(labels)
+        if small:
+            return str(rng.randrange(0, 24))
         return str(rng.choice([0, 1, 5, 15, 16, 17, 100, 127, 128, 200, 255, 256, 300, 1000, 65535]))
     for i in range(n):
         if pending and rng.random() < 0.35:
@@ -57,9 +98,15 @@ def gen_program(rng, n=None):
         r = rng.random()
         if r < 0.25:
             lines.append("    jmp " + operand())
-        elif r < 0.4:
+        elif r < 0.33:
             lines.append("    br " + operand())
-        elif r < 0.52:
+        elif r < 0.38:
+            lines.append("    jr " + operand())
+        elif r < 0.42:
+            lines.append("    %s %s" % (rng.choice(["ld", "st", "gr", "sh", "ref"]), operand()))
+        elif r < 0.46 and nblk:
+            lines.append("    blk%d %s" % (rng.randrange(nblk), operand()))
+        elif r < 0.54:
             lines.append("    ldi " + operand())
         elif r < 0.58:
             lines.append("    lds " + rng.choice(["-1", "-128", "-129", "127", "128", operand()]))
@@ -86,4 +133,49 @@ def gen_program(rng, n=None):
     for l in pending:
         lines.append(l + ":")
     lines.append("    nop")
-    return RULES + "\n".join(lines) + "\n"
+    return rules + "\n".join(lines) + "\n"
+
+
+BLOCK_RULES = """#ruledef
+{
+    nop => 0x00
+    ref {x} => 0xcc @ x`8
+    gr {x} => { assert(x < %(T)d), 0xa1 }
+    gr {x} => { assert(x >= %(T)d), 0xa2a2 }
+    sh {x} => { assert(x < %(U)d), 0xb2b2 }
+    sh {x} => { assert(x >= %(U)d), 0xb1 }
+    gg {x} => { assert(x < %(V)d), 0xc1 }
+    gg {x} => { assert(x >= %(V)d), 0xc2c2c2 }
+%(BLOCKS)s
+}
+"""
+
+
+def gen_block_program(rng):
+    """programs dominated by asm blocks with several local labels whose positions move in opposite
+    directions between inner passes (growing and shrinking instructions)"""
+    def block(k):
+        labs = ["m1", "m2", "m3"][: rng.randrange(2, 4)]
+        body, pend = [], list(labs)
+        for _ in range(rng.randrange(2, 7)):
+            if pend and rng.random() < 0.5:
+                body.append("      %s:" % pend.pop(0))
+            body.append("        %s %s" % (rng.choice(["ref", "gr", "sh", "gg", "gr", "sh"]), rng.choice(labs + (["{a}"] if rng.random() < 0.3 else []))))
+        for l in pend:
+            body.append("      %s:" % l)
+        return "    blk%d {a} => asm {\n%s\n    }" % (k, "\n".join(body))
+    nblk = rng.randrange(1, 3)
+    rules = BLOCK_RULES % {"T": rng.randrange(1, 9), "U": rng.randrange(1, 9), "V": rng.randrange(1, 9),
+                           "BLOCKS": "\n".join(block(k) for k in range(nblk))}
+    lines = []
+    for _ in range(rng.randrange(0, 3)):
+        lines.append("    " + rng.choice(["nop", "gr end", "sh end", "ref end"]))
+    lines.append("start:")
+    for _ in range(rng.randrange(1, 3)):
+        lines.append("    blk%d %s" % (rng.randrange(nblk), rng.choice(["end", "start", "3", "7"])))
+    lines.append("end:")
+    return rules + "\n".join(lines) + "\n"
+
+
+def gen_any(rng):
+    return gen_block_program(rng) if rng.random() < 0.3 else gen_program(rng)
